@@ -69,7 +69,7 @@ def make_probe(rng, k, shared, variant, allow_empty=True):
                nch=nc, ntm=nt, chmap=as_list(ds['chmap']), pcind=as_list(ds['pcind']), tfind=as_list(ds['tfind']),
                posx=ints(pos[:, 0]), posy=ints(pos[:, 1]), T=ints(ds['T']),
                wm=ints(ds['wm'], 4) if shared['wm'][k] else [], wmi=ints(ds['wmi_eff'], 4) if shared['wm'][k] else [],
-               sim=ints(ds['sim']) if shared['sim'][k] else [], tsv=tsv_rec, rate=int(shared['rate']),
+               sim=ints(ds['sim']) if shared['sim'][k] else [], tsv=tsv_rec, rate=int(round(2 * shared['rate'])),
                ncdat=int(ds.get('ncdat') or nc))
     return ds, tsv, rec
 
@@ -90,7 +90,7 @@ def merge_once(ctx, d, rng, variant):
     from phylib.utils._misc import read_python
     K = int(rng.choice([1, 2, 3, 3, 4]))
     p_all = rng.rand() < 0.6
-    shared = dict(nsw=int(rng.randint(2, 4)), rate=[1024, 2048][variant % 2], tmax=int(rng.choice([3, 8, 40])),
+    shared = dict(nsw=int(rng.randint(2, 4)), rate=[1024, 2048, 1024.5][variant % 3], tmax=int(rng.choice([3, 8, 40])),
                   wm=[p_all or rng.rand() < 0.5 for _ in range(K)], sim=[p_all or rng.rand() < 0.5 for _ in range(K)],
                   ind_dtype=[np.uint32, np.int32, np.int64][variant % 3], tsv_p=[1.0, 0.5, 0.0][variant % 3],
                   zero_x=[(variant % 7 == 3) and k < K - 1 for k in range(K)])
@@ -102,7 +102,8 @@ def merge_once(ctx, d, rng, variant):
         sub = root / ('probe%d' % (9 + k))     # probe9, probe10, ...: the given order is not the name order
         # all probes of one merge come from the same sorter: same dtypes (they vary between merges)
         D.write_dataset(sub, ds, tsv=tsv, time_dtype=[np.uint64, np.int64, np.int32, np.uint32][variant % 4],
-                        id_dtype=[np.int32, np.uint32, np.int64][variant % 3])
+                        id_dtype=[np.int32, np.uint32, np.int64][variant % 3],
+                        float_dtype=[np.float32, np.float64][(variant // 3) % 2])      # (templates in either precision)
         (sub / 'whitening_mat_inv.npy').exists() or None
         subdirs.append(sub)
         recs.append(rec)
@@ -152,7 +153,8 @@ def merge_once(ctx, d, rng, variant):
                wm=[] if wm is None else ints(wm, 4), wmi=[] if wmi is None else ints(wmi, 4),
                sim=[] if sim is None else ints(sim),
                tsv={name: read_tsv_pairs(out_dir / fn) for name, fn in TSV.items()},
-               rate=int(params['sample_rate']), ncdat=int(params['n_channels_dat']))
+               rate=int(round(2 * float(params['sample_rate']))) if float(2 * params['sample_rate']).is_integer() else -1,
+               ncdat=int(params['n_channels_dat']))
     zero_x_before = [k for k in range(K - 1) if len(set(recs[k]['posx'])) == 1]
     return dict(probes=recs, steps=steps, out=out, inputsUnchanged=before == after, modelOk=bool(model_ok),
                 _zero_x=zero_x_before)
